@@ -112,3 +112,13 @@ Print Assumptions reachable_worlds_without_snapshot_are_patch_free.
 
 Example fresh_world_all_invariants : forall st seed fuel, InvAll (world_init st seed fuel).
 Proof. exact PatchInv.invall_world_init. Qed.
+
+(* T-gen tie of the structural theorems above: in the Rust sources, too, the observation batch is opened / closed and
+   the look-ahead snapshot taken / restored / discarded by continue_internal and continue_single_step only —
+   regenerated from the sources on every run *)
+From Ink.Gen Require Import EngineGen.
+From Ink.Shell Require Import StructureTie.
+Theorem lookahead_structure_is_the_models : lookahead_structure_confined = true.
+Proof. exact StructureTie.now_lookahead_structure_confined. Qed.
+Check lookahead_structure_is_the_models : lookahead_structure_confined = true.
+Print Assumptions lookahead_structure_is_the_models.
